@@ -159,6 +159,9 @@ func DrawSingle(r *rng.R, ts []Template, tplIdx int, bindIdx int) *Entry {
 	t := ts[tplIdx%len(ts)]
 	wseed := r.U64()
 	b1 := r.Range(1, 3)
+	if r.Chance(1, 8) {
+		b1 = r.Range(4, 6)
+	}
 	b2 := r.Range(1, 3)
 	if b2 == b1 {
 		b2 = b1%3 + 1
